@@ -282,6 +282,14 @@ class Interp:
             if len(parts) >= 2 and parts[-2] == "ClientServiceState" and parts[-1].startswith("is_") and len(expr.args) == 1 \
                     and self.is_read(expr.args[0]):
                 flagbit = self.fm.getter_bit.get(parts[-1][3:])
+            elif len(parts) >= 2 and parts[-2] == "ClientServiceState" and parts[-1].startswith("is_") and len(expr.args) == 1 \
+                    and isinstance(expr.args[0], ast.Name):
+                # the predicate applied to a local that holds a flag word read earlier: it tests *that* value (which may be stale after an await)
+                bit = self.fm.getter_bit.get(parts[-1][3:])
+                nm = expr.args[0].id
+                if bit and all(any(k == nm for k, _v in l) for (_p, _s, _w, l) in st):
+                    res = frozenset(x for x in st if bool(dict(x[3])[nm] & bit) == truth)
+                    return res or None
         elif isinstance(expr, ast.BinOp) and isinstance(expr.op, ast.BitAnd):
             for side, other in ((expr.left, expr.right), (expr.right, expr.left)):
                 if self.is_read(other):
